@@ -199,7 +199,7 @@ func TestC03(t *testing.T) {
 		h.Report("c03.child", all, evalC03Child(all))
 	}
 
-	h.Rapid("pipelines", h.N(30000, 150000), func(rt *rapid.T) {
+	h.Rapid("pipelines", h.N(30000, 400000), func(rt *rapid.T) {
 		c, labels := genPipeline(rt, h.Avoid, 12, false)
 		data, _ := resp.EncodeAll(c.values())
 		nt := len(c.Reqs) >= 3 && (len(c.Sizes) > 0 || labels["quit-not-last"] || labels["option-bearing"] || labels["handler-error"])
